@@ -53,12 +53,15 @@ class ClauseStats:
         self.wall = 0.0
         self.budget_exhausted = False
         self.exhaustive_total = None
+        self.values = {}
 
     def add(self, case, res):
         from .core import case_hash
         self.evals += 1
         for lab in res["labels"]:
             self.labels[lab] = self.labels.get(lab, 0) + 1
+        if res.get("value") is not None and res["outcome"] == "ok":
+            self.values[case_hash(case)] = [res["value"], case]
         if res["outcome"] == "skip":
             self.skips[res["skip"]] = self.skips.get(res["skip"], 0) + 1
             return
@@ -84,7 +87,7 @@ class ClauseStats:
             "evals": self.evals, "hashes": sorted(self.hashes), "labels": self.labels,
             "samples": self.samples, "failures": self.failures, "skips": self.skips,
             "wall": round(self.wall, 3), "budget_exhausted": self.budget_exhausted,
-            "exhaustive_total": self.exhaustive_total,
+            "exhaustive_total": self.exhaustive_total, "values": self.values,
         }
 
 
@@ -142,7 +145,9 @@ def main(argv):
                 continue
             total = clause.budget(tier)
             n = -(-total // nshards) if total > 0 else 0
-            seed = derive_seed(vseed, pid, clause.name, shard)
+            seed = derive_seed(vseed, pid, clause.name, 0 if clause.cross_shard else shard)
+            if clause.cross_shard:
+                n = total
             with warnings.catch_warnings():
                 warnings.simplefilter("ignore")
                 st = run_clause(clause, n, seed, shard, nshards, wall_cap)
